@@ -217,7 +217,7 @@ APPEND_NOTE = {
  "C01": " QUALIFIER (audit, then CLOSED): the rectangle-set loops of the window model run on a fuel that is a field of the model state (300 in the extracted model the C is compared with); every history/flush theorem holds for EVERY fuel under the hypothesis that no loop ran out of the state's fuel (r_fault = false), and for EVERY history over the whole alphabet, the three scroll operations with any scroll oracle included, some fuel provably suffices: C01_history_total_all / C01_history_total_flushed_all (there is a fuel such that, with it and every larger one, the run faults nowhere, the invariant holds, and after a final flush every cell shows the composition), from C05's termination theorems for add, subtract and contains, fuel monotonicity (C01_run_fuel_monotone) and progress of _scroll (C01_scroll_progress, C01_step_progress_all: rs_sub_vis, rs_clip, scroll_region, shift_damage and the scroll_one loop, WinFuelTotalScroll.v); non-vacuous for a history with a scroll (C01_history_total_example_sides, C01_history_total_example). The side condition sides_along (fresh ids, no show/hide/geometry change of the root, visible windows non-empty for scrolls, ...) remains, and no explicit bound on the fuel is given. C01_nested_* (a handler that flushes the root or changes geometry) proves the flag and id-uniqueness invariants only, and C01_history_xterm excludes flush and terminal resize.",
  "C02": " QUALIFIER (audit): C02_rects_disjoint has the hypotheses ids_unique and Inv of the damage set, both discharged by C01's invariants (C01_forest_unique_*, C01_damage_inv); the fuel qualifier of C01 applies here too (theorems hold for every fuel, conditional on no loop running out of it).",
  "C15": " QUALIFIER (audit): the fuel qualifier of C01 applies to C15_requested / C15_flush / C15_history* (every fuel, conditional on no rectangle-set loop running out of it; C15_init_any_fuel).",
- "C14": " QUALIFIER (audit, then narrowed): C14_mutation_rest is stated for events that no handler claims; with claimers present: for the mouse, C14_mutation_rest_claim covers every claim pattern in which no window INSIDE the closed subtree claims the event type (claimers outside allowed, before or after the mutating window; in order, return value included; the hypothesis is shown necessary by example); C14_mutation_rest_claim_key / _mouse cover any claimers when the claim stops the routing before the mutating handler is reached; self-close with a claimer is C14_mutation_self_partial. Still open: keys with a claimer reached AFTER a mutation has run (the order may legitimately change then). C14_term_key / C14_term_mouse(_seq) require tree height below the fuel 64 (explicit in the statements).",
+ "C14": " QUALIFIER (audit, then narrowed): C14_mutation_rest is stated for events that no handler claims; with claimers present: for the mouse, C14_mutation_rest_claim covers every claim pattern in which no window INSIDE the closed subtree claims the event type (claimers outside allowed, before or after the mutating window; in order, return value included; the hypothesis is shown necessary by example); C14_mutation_rest_claim_key / _mouse cover any claimers when the claim stops the routing before the mutating handler is reached; self-close with a claimer is C14_mutation_self_partial. For keys with ARBITRARY claimers (also reached after the mutation ran) C14_mutation_key_claim proves: the routing returns true exactly when a window offered the key claims it, nothing is delivered after a claimer, at most the last window offered the key claims; still open there: that the windows offered the key outside the closed subtree all come from the unmutated order. C14_term_key / C14_term_mouse(_seq) require tree height below the fuel 64 (explicit in the statements).",
  "C09": " QUALIFIER (audit): in a sequence the claim stops at the first out-of-range or excluded request (seq_ok_excl is a nested implication); 'in range' also requires no pending wrap for relative moves, erases and non-empty prints (i.e. the request after a print ending in the last column is out of range unless it is an absolute goto), erase with the cursor to move strictly inside the line, and printable ASCII for print at this level (wider text class in C04_C09_flush_on_vt).",
  "C12": " C12_history_refuted and C12_getctl_refuted have the same statement shape (a history the checker rejects); they differ in the witness (teardown bytes vs. getctl read-back).",
 }
